@@ -195,6 +195,49 @@ def check(run, driver):
             except Exception as e:  # noqa
                 plt.close("all")
                 run.prop_fail("drawing raises after a graph with the same edges but another isolated node was drawn", {"nodes": list(map(repr, Gt.nodes())), "seed": seed}, {"clause": "total", "history": True}, repr(e))
+    # history: the SAME graph object drawn, edited in place so that node and edge counts stay what they were (a variable renamed /
+    # replaced, one link rewired), and drawn again with the same seed: total, and laid out like a fresh graph with the edited content
+    for it in range(12 if thorough else 4):
+        G = rand_multigraph(rng, n=int(rng.integers(4, 8)))
+        seed = int(rng.integers(0, 30))
+        try:
+            with quiet():
+                P.plot_causal_network(G, seed=seed, figsize=(3, 3), dpi=30, show_plot=False)
+            plt.close("all")
+        except Exception:  # noqa  (a failure of the first drawing is the business of the drawing stream below)
+            plt.close("all"); continue
+        nodes0 = list(G.nodes())
+        if it % 2 == 0:      # rename: the first node leaves, a new label takes over its links
+            old_n = nodes0[0]; new_n = "renamed" if isinstance(old_n, str) else 10**6 + it
+            inc = [(a, b, dict(dd)) for a, b, dd in G.edges(data=True) if old_n in (a, b)]
+            G.remove_node(old_n); G.add_node(new_n)
+            for a, b, dd in inc:
+                G.add_edge(new_n if a == old_n else a, new_n if b == old_n else b, **dd)
+            edit = "node renamed in place"
+        else:                # rewire: one link gets another target
+            es = [(a, b, k) for a, b, k in G.edges(keys=True) if a != b]
+            if not es:
+                continue
+            a, b, k = es[int(rng.integers(0, len(es)))]
+            dd = dict(G.edges[a, b, k]); G.remove_edge(a, b, k)
+            others = [x for x in nodes0 if x not in (a, b)]
+            G.add_edge(a, others[int(rng.integers(0, len(others)))] if others else b, **dd)
+            edit = "one link rewired in place"
+        fresh = nx.MultiDiGraph(); fresh.add_nodes_from(G.nodes(data=True)); fresh.add_edges_from((a_, b_, dict(dd_)) for a_, b_, dd_ in G.edges(data=True))
+        case = {"nodes": list(map(repr, G.nodes())), "edges": [(repr(a_), repr(b_), dd_) for a_, b_, dd_ in G.edges(data=True)], "seed": seed, "edit": edit}
+        run.case("history-edit", [it, seed, edit, case["nodes"]], True)
+        try:
+            with quiet():
+                fig, ax = P.plot_causal_network(G, seed=seed, figsize=(3, 3), dpi=30, show_plot=False)
+            offs = ax.collections[0].get_offsets(); got = {n: np.asarray(offs[i]) for i, n in enumerate(G.nodes())}
+            plt.close("all")
+        except Exception as e:  # noqa
+            plt.close("all")
+            run.prop_fail("drawing raises after the same graph object was edited in place (counts unchanged) since it was last drawn", case, {"clause": "total", "history": "edit"}, repr(e)); continue
+        pyrandom.seed(int(rng.integers(0, 10**6)))
+        want = P._circular_positions(P.optimize_circular_order(fresh, rng=seed), radius=1.0)
+        if any(np.linalg.norm(got[n] - want[n]) > 1e-9 for n in G.nodes()):
+            run.prop_fail("layout of a graph object that was edited in place since it was last drawn is not the seeded layout of its current content (stale state)", case, {"clause": "reproducible", "history": "edit"})
     # adversarial community outputs
     for it in range(40 if thorough else 12):
         G = rand_multigraph(rng)
